@@ -629,6 +629,164 @@ def engine_chain(run, rng: random.Random, base: str, case_id: Any, sample: bool)
         ctor = order[:n_ctor]
         chain = FileSystemChain(*[(members[i][0].fs, members[i][1]) if members[i][1] or rng.random() < 0.3 else members[i][0].fs for i in ctor])
         final = list(ctor)
+        def verify(full: bool) -> None:
+            """Compare the chain with the model for the CURRENT member order (called after every operation of the history)."""
+            layout = [(members[i][0].kind, members[i][1], sorted(n for n, _ in members[i][0].ref.by_key.values())) for i in final]
+            case['layout'] = layout
+            got_order = [(id(s), p) for s, p in chain.systems]
+            if got_order != [(id(members[i][0].fs), members[i][1]) for i in final]:
+                ck.fail('chain-order', 'chain.systems is not in the order given by constructor arguments and priority insertions')
+
+            def chain_arg(prefix: str, name: str) -> str:
+                return os.path.join(prefix, name).replace('\\', '/')   # what FileSystemChain hands to a member
+
+            def blame_member_lookup(q: str) -> Optional[str]:
+                """First member whose own answer to the name the chain hands it differs from that member's model."""
+                for i in final:
+                    b, pre, _ = members[i]
+                    arg = chain_arg(pre, q)
+                    want_i = b.ref.lookup(join(pre, q))
+                    got_i, err_i = ck.try_lookup(b.fs, arg)
+                    if err_i is not None or got_i != want_i:
+                        return ck.classify_lookup(b.fs, arg, want_i, got_i, err_i)
+                return None
+
+            def blame_member_walk(p: str) -> Optional[str]:
+                for i in final:
+                    b, pre, _ = members[i]
+                    arg = chain_arg(pre, p)
+                    want_i = b.ref.walk(join(pre, p))
+                    got_i = ck.quiet_walk(b, arg)
+                    if got_i is None:
+                        return 'walk-raises'
+                    if sorted(got_i) != sorted(want_i):
+                        return ck.classify_walk(b, 'exact', arg, want_i, got_i)
+                return None
+
+            def join(prefix: str, name: str) -> str:
+                return norm(prefix + '/' + name) if prefix else norm(name)
+
+            def model_lookup(q: str) -> Optional[bytes]:
+                for i in final:
+                    b, pre, _ = members[i]
+                    d = b.ref.lookup(join(pre, q))
+                    if d is not None:
+                        return d
+                return None
+
+            def model_walk_repeat(p: str) -> List[Tuple[str, bytes]]:
+                out = []
+                for i in final:
+                    b, pre, _ = members[i]
+                    pk = b.ref.key(norm(pre)) if pre else ''
+                    for k in b.ref.walk(join(pre, p)):
+                        if pre and not inside(k, pk):
+                            continue
+                        rel = k[len(pk) + 1:] if pk else k
+                        out.append((rel.casefold(), b.ref.by_key[k][1]))
+                return out
+
+            # names visible through the chain (relative to prefixes), in their stored spelling
+            visible: List[str] = []
+            for i in final:
+                b, pre, _ = members[i]
+                pk = b.ref.key(norm(pre)) if pre else ''
+                for k, (n, _) in b.ref.by_key.items():
+                    if inside(k, pk):
+                        rel = '/'.join(norm(n).split('/')[len(pk.split('/')) if pk else 0:])
+                        if rel not in visible:
+                            visible.append(rel)
+            for rel in visible:
+                for kind, q in spellings(rng, rel):
+                    want = model_lookup(q)
+                    run.count('chain_lookups')
+                    got, err = ck.try_lookup(chain, q)
+                    if err is None and got == want:
+                        continue
+                    key = blame_member_lookup(q)
+                    if key is None:
+                        if got is not None and any(got == members[i][0].ref.lookup(join(members[i][1], q)) for i in final):
+                            key = 'chain-priority-violated'
+                        else:
+                            key = 'chain-lookup-mismatch'
+                    ck.fail(key, f'chain lookup of {q!r} ({kind}) ' + (err or f'returns {None if got is None else got[:40]!r}, the first member that has it holds {None if want is None else want[:40]!r}'),
+                            {'layout': layout})
+            for q in ['nothere.txt', 'zz/' + (visible[0] if visible else 'a'), (visible[0] if visible else 'a') + 'x']:
+                if model_lookup(q) is None:
+                    got, err = ck.try_lookup(chain, q)
+                    if err or got is not None:
+                        ck.fail('lookup-finds-unstored-name', f'chain lookup of unstored {q!r}: ' + (err or f'returns {got[:40]!r}'))
+            if not full:
+                return
+            # walks
+            folders = ['']
+            for rel in visible:
+                comps = rel.split('/')[:-1]
+                for j in range(1, len(comps) + 1):
+                    if '/'.join(comps[:j]) not in folders:
+                        folders.append('/'.join(comps[:j]))
+            queries: List[Tuple[str, str]] = []
+            for p in folders:
+                queries.append(('exact', p))
+                if p:
+                    queries.append(('trail', p + '/'))
+                    queries.append(('case', p.swapcase()))
+                    queries.append(('slash+case', p.upper().replace('/', '\\') + '\\'))
+            queries.append(('nonfolder', 'ma'))
+            queries.append(('nonfolder', 'nothere'))
+            for kind, p in queries:
+                want_rep = model_walk_repeat(p)
+                want_once: Dict[str, bytes] = {}
+                for k, d in want_rep:
+                    want_once.setdefault(k, d)
+                run.count('chain_walks')
+                for which, fn in (('walk_folder', chain.walk_folder), ('walk_folder_repeat', chain.walk_folder_repeat)):
+                    try:
+                        listed = list(fn(p))
+                    except Exception as exc:
+                        ck.fail('walk-raises', f'chain.{which}({p!r}) raised {type(exc).__name__}: {exc}', {'layout': layout, 'tb': traceback.format_exc()[-800:]}, scope=which)
+                        continue
+                    got_keys = [norm(f.path).casefold() for f in listed]
+                    want_keys = sorted(want_once) if which == 'walk_folder' else sorted(k for k, _ in want_rep)
+                    if sorted(got_keys) != want_keys:
+                        extra = sorted(set(got_keys) - set(want_keys))
+                        if which == 'walk_folder' and len(got_keys) != len(set(got_keys)):
+                            key = 'chain-walk-lists-twice'
+                        else:
+                            key = blame_member_walk(p)
+                            if key is None:
+                                # every member lists its folder correctly: the chain's own relativisation is at fault.
+                                # os.path.relpath() compares text, so a prefix spelled in another case (or with a backslash)
+                                # than the member's paths is "left" through '../'.
+                                key = 'chain-walk-relpath-case' if extra and all(k.startswith('../') for k in extra) else 'chain-walk-mismatch'
+                        ck.fail(key, f'chain.{which}({p!r}) ({kind}) lists {sorted(got_keys)[:8]}, expected {want_keys[:8]}',
+                                {'layout': layout, 'extra': extra[:6], 'missing': sorted(set(want_keys) - set(got_keys))[:6]}, scope=which)
+                        continue
+                    if which == 'walk_folder':
+                        for f in listed:
+                            k = norm(f.path).casefold()
+                            try:
+                                with f.open_bin() as fh:
+                                    own = fh.read()
+                            except Exception as exc:
+                                ck.fail('listed-file-unreadable', f'chain: File {f.path!r} cannot be opened: {exc!r}')
+                                continue
+                            run.count('listed_names_looked_up')
+                            if own != want_once[k]:
+                                ck.fail(blame_member_walk(p) or 'chain-priority-violated', f'chain.walk_folder({p!r}) lists {f.path!r} with bytes {own[:40]!r}; the first member holding it has {want_once[k][:40]!r}', {'layout': layout})
+                            # a listed name can be looked up - with exact-case Raw members a folded duplicate may legitimately
+                            # resolve to another member, so the bytes are compared with the model's answer for that spelling
+                            via, err = ck.try_lookup(chain, f.path)
+                            if err or via != model_lookup(f.path) or via is None:
+                                ck.fail('listed-name-not-lookupable', f'chain.walk_folder({p!r}) lists {f.path!r}; looking it up ' + (err or f'gives {None if via is None else via[:40]!r}'), {'layout': layout})
+            try:
+                if sorted(norm(f.path).casefold() for f in chain) != sorted(norm(f.path).casefold() for f in chain.walk_folder('')):
+                    ck.fail('iter-differs-from-walk-root', 'iter(chain) differs from chain.walk_folder("")')
+            except Exception as exc:
+                ck.fail('walk-raises', f'iter(chain) raised {exc!r}')
+
+        verify(full=(n_ctor == n_members))
+        run.count('chain_verifications')
         for i in order[n_ctor:]:
             pri = rng.random() < 0.5
             chain.add_sys(members[i][0].fs, members[i][1], priority=pri)
@@ -637,157 +795,9 @@ def engine_chain(run, rng: random.Random, base: str, case_id: Any, sample: bool)
                 final.insert(0, i)
             else:
                 final.append(i)
-        layout = [(members[i][0].kind, members[i][1], sorted(n for n, _ in members[i][0].ref.by_key.values())) for i in final]
-        case['layout'] = layout
-        got_order = [(id(s), p) for s, p in chain.systems]
-        if got_order != [(id(members[i][0].fs), members[i][1]) for i in final]:
-            ck.fail('chain-order', 'chain.systems is not in the order given by constructor arguments and priority insertions')
-
-        def chain_arg(prefix: str, name: str) -> str:
-            return os.path.join(prefix, name).replace('\\', '/')   # what FileSystemChain hands to a member
-
-        def blame_member_lookup(q: str) -> Optional[str]:
-            """First member whose own answer to the name the chain hands it differs from that member's model."""
-            for i in final:
-                b, pre, _ = members[i]
-                arg = chain_arg(pre, q)
-                want_i = b.ref.lookup(join(pre, q))
-                got_i, err_i = ck.try_lookup(b.fs, arg)
-                if err_i is not None or got_i != want_i:
-                    return ck.classify_lookup(b.fs, arg, want_i, got_i, err_i)
-            return None
-
-        def blame_member_walk(p: str) -> Optional[str]:
-            for i in final:
-                b, pre, _ = members[i]
-                arg = chain_arg(pre, p)
-                want_i = b.ref.walk(join(pre, p))
-                got_i = ck.quiet_walk(b, arg)
-                if got_i is None:
-                    return 'walk-raises'
-                if sorted(got_i) != sorted(want_i):
-                    return ck.classify_walk(b, 'exact', arg, want_i, got_i)
-            return None
-
-        def join(prefix: str, name: str) -> str:
-            return norm(prefix + '/' + name) if prefix else norm(name)
-
-        def model_lookup(q: str) -> Optional[bytes]:
-            for i in final:
-                b, pre, _ = members[i]
-                d = b.ref.lookup(join(pre, q))
-                if d is not None:
-                    return d
-            return None
-
-        def model_walk_repeat(p: str) -> List[Tuple[str, bytes]]:
-            out = []
-            for i in final:
-                b, pre, _ = members[i]
-                pk = b.ref.key(norm(pre)) if pre else ''
-                for k in b.ref.walk(join(pre, p)):
-                    if pre and not inside(k, pk):
-                        continue
-                    rel = k[len(pk) + 1:] if pk else k
-                    out.append((rel.casefold(), b.ref.by_key[k][1]))
-            return out
-
-        # names visible through the chain (relative to prefixes), in their stored spelling
-        visible: List[str] = []
-        for i in final:
-            b, pre, _ = members[i]
-            pk = b.ref.key(norm(pre)) if pre else ''
-            for k, (n, _) in b.ref.by_key.items():
-                if inside(k, pk):
-                    rel = '/'.join(norm(n).split('/')[len(pk.split('/')) if pk else 0:])
-                    if rel not in visible:
-                        visible.append(rel)
-        for rel in visible:
-            for kind, q in spellings(rng, rel):
-                want = model_lookup(q)
-                run.count('chain_lookups')
-                got, err = ck.try_lookup(chain, q)
-                if err is None and got == want:
-                    continue
-                key = blame_member_lookup(q)
-                if key is None:
-                    if got is not None and any(got == members[i][0].ref.lookup(join(members[i][1], q)) for i in final):
-                        key = 'chain-priority-violated'
-                    else:
-                        key = 'chain-lookup-mismatch'
-                ck.fail(key, f'chain lookup of {q!r} ({kind}) ' + (err or f'returns {None if got is None else got[:40]!r}, the first member that has it holds {None if want is None else want[:40]!r}'),
-                        {'layout': layout})
-        for q in ['nothere.txt', 'zz/' + (visible[0] if visible else 'a'), (visible[0] if visible else 'a') + 'x']:
-            if model_lookup(q) is None:
-                got, err = ck.try_lookup(chain, q)
-                if err or got is not None:
-                    ck.fail('lookup-finds-unstored-name', f'chain lookup of unstored {q!r}: ' + (err or f'returns {got[:40]!r}'))
-        # walks
-        folders = ['']
-        for rel in visible:
-            comps = rel.split('/')[:-1]
-            for j in range(1, len(comps) + 1):
-                if '/'.join(comps[:j]) not in folders:
-                    folders.append('/'.join(comps[:j]))
-        queries: List[Tuple[str, str]] = []
-        for p in folders:
-            queries.append(('exact', p))
-            if p:
-                queries.append(('trail', p + '/'))
-                queries.append(('case', p.swapcase()))
-                queries.append(('slash+case', p.upper().replace('/', '\\') + '\\'))
-        queries.append(('nonfolder', 'ma'))
-        queries.append(('nonfolder', 'nothere'))
-        for kind, p in queries:
-            want_rep = model_walk_repeat(p)
-            want_once: Dict[str, bytes] = {}
-            for k, d in want_rep:
-                want_once.setdefault(k, d)
-            run.count('chain_walks')
-            for which, fn in (('walk_folder', chain.walk_folder), ('walk_folder_repeat', chain.walk_folder_repeat)):
-                try:
-                    listed = list(fn(p))
-                except Exception as exc:
-                    ck.fail('walk-raises', f'chain.{which}({p!r}) raised {type(exc).__name__}: {exc}', {'layout': layout, 'tb': traceback.format_exc()[-800:]}, scope=which)
-                    continue
-                got_keys = [norm(f.path).casefold() for f in listed]
-                want_keys = sorted(want_once) if which == 'walk_folder' else sorted(k for k, _ in want_rep)
-                if sorted(got_keys) != want_keys:
-                    extra = sorted(set(got_keys) - set(want_keys))
-                    if which == 'walk_folder' and len(got_keys) != len(set(got_keys)):
-                        key = 'chain-walk-lists-twice'
-                    else:
-                        key = blame_member_walk(p)
-                        if key is None:
-                            # every member lists its folder correctly: the chain's own relativisation is at fault.
-                            # os.path.relpath() compares text, so a prefix spelled in another case (or with a backslash)
-                            # than the member's paths is "left" through '../'.
-                            key = 'chain-walk-relpath-case' if extra and all(k.startswith('../') for k in extra) else 'chain-walk-mismatch'
-                    ck.fail(key, f'chain.{which}({p!r}) ({kind}) lists {sorted(got_keys)[:8]}, expected {want_keys[:8]}',
-                            {'layout': layout, 'extra': extra[:6], 'missing': sorted(set(want_keys) - set(got_keys))[:6]}, scope=which)
-                    continue
-                if which == 'walk_folder':
-                    for f in listed:
-                        k = norm(f.path).casefold()
-                        try:
-                            with f.open_bin() as fh:
-                                own = fh.read()
-                        except Exception as exc:
-                            ck.fail('listed-file-unreadable', f'chain: File {f.path!r} cannot be opened: {exc!r}')
-                            continue
-                        run.count('listed_names_looked_up')
-                        if own != want_once[k]:
-                            ck.fail(blame_member_walk(p) or 'chain-priority-violated', f'chain.walk_folder({p!r}) lists {f.path!r} with bytes {own[:40]!r}; the first member holding it has {want_once[k][:40]!r}', {'layout': layout})
-                        # a listed name can be looked up - with exact-case Raw members a folded duplicate may legitimately
-                        # resolve to another member, so the bytes are compared with the model's answer for that spelling
-                        via, err = ck.try_lookup(chain, f.path)
-                        if err or via != model_lookup(f.path) or via is None:
-                            ck.fail('listed-name-not-lookupable', f'chain.walk_folder({p!r}) lists {f.path!r}; looking it up ' + (err or f'gives {None if via is None else via[:40]!r}'), {'layout': layout})
-        try:
-            if sorted(norm(f.path).casefold() for f in chain) != sorted(norm(f.path).casefold() for f in chain.walk_folder('')):
-                ck.fail('iter-differs-from-walk-root', 'iter(chain) differs from chain.walk_folder("")')
-        except Exception as exc:
-            ck.fail('walk-raises', f'iter(chain) raised {exc!r}')
+            # history: the lookups above may have warmed any cache inside the chain; re-check after every insertion
+            verify(full=(i == order[-1]))
+            run.count('chain_verifications')
         run.count(f'chain_members_{n_members}')
         if any(members[i][1] for i in final):
             run.count('chains_with_prefixed_member')
